@@ -253,8 +253,16 @@ def snapshot(root):
                 comp = {k: full[k] for k in ("material", "Tinput", "Thot", "dims", "ndens")}
             except (TypeError, ValueError, AttributeError, KeyError) as e:  # state too broken to read: shows up as a difference
                 comp = {"dims": {"unobservable": type(e).__name__}, "ndens": {}, "Thot": None}
-            # a linked dimension is compared by its target; the number it resolves to belongs to the target's own record
-            comp["dims"] = {k: (v[:3] if isinstance(v, tuple) and v and v[0] == "link" else v) for k, v in comp["dims"].items()}
+            # a linked dimension is compared by its target (the number it resolves to belongs to the target's own record) and by
+            # WHICH object the target is: a live child of the same block, identified by its serial number
+            dims = {}
+            for k, v in comp["dims"].items():
+                if isinstance(v, tuple) and v and v[0] == "link":
+                    tgt = o.p[k].getLinkedComponent()
+                    sibling = o.parent is not None and any(x is tgt for x in o.parent)
+                    v = v[:3] + ("child-of-the-same-block" if sibling else "not-a-child-of-the-block", tgt.p.serialNum)
+                dims[k] = v
+            comp["dims"] = dims
             rc["component"] = comp
         rc["cached"] = _cache_rec(o.cached)
         mat = getattr(o, "material", None)
@@ -274,7 +282,11 @@ def _values_view(flat):
     for rec in flat:
         p = dict(rec["params"])
         p.pop("serialNum", None)
-        out.append({"type": rec["type"], "params": p, "component": rec.get("component"), "grid": rec["grid"], "nchildren": rec["nchildren"]})
+        comp = rec.get("component")
+        if comp is not None:
+            # (a copy's links point to the copied siblings: other serial numbers, and detached when a single component was copied)
+            comp = dict(comp, dims={k: (v[:3] if isinstance(v, tuple) and v and v[0] == "link" else v) for k, v in comp["dims"].items()})
+        out.append({"type": rec["type"], "params": p, "component": comp, "grid": rec["grid"], "nchildren": rec["nchildren"]})
     return out
 
 
@@ -673,6 +685,15 @@ class Interp:
         if i is None:
             return
         g = self.objs[i].spatialGrid
+        if op["n"] % 4 == 1:
+            # the origin offset is grid state backed up together with pitch and bounds: assign a new one (public setter)
+            import numpy as np
+
+            g.offset = np.array([round(op["factor"] * 3.0, 4), round(op["T"] / 100.0, 4), 0.0])
+            self.counts["offset-assigned:" + self.level[i]] += 1
+            if self.frames:
+                self.counts["offset-assigned-in-scope"] += 1
+            return
         if g._offset.any():
             self.counts["pitch-of-offset-grid"] += 1
             if self.frames:
@@ -712,6 +733,26 @@ class Interp:
         c.setDimension(d, c.p[d] * (1.0 - 0.01 * (1 + op["n"] % 3)))
         self.touched.add(i)
         self.counts["dim"] += 1
+        self.check_links(c, d)
+
+    def check_links(self, c, d):
+        """Every sibling dimension linked to (c, d) resolves to c's current value."""
+        from armi.reactor.components import component as compmod
+
+        if c.parent is None:
+            return
+        want = c.getDimension(d, cold=True)
+        for sib in c.parent:
+            for dn in sib.DIMENSION_NAMES:
+                raw = sib.p[dn]
+                if isinstance(raw, compmod._DimensionLink) and raw[1] == d and raw[0].name == c.name:
+                    got = sib.getDimension(dn, cold=True)
+                    self.counts["link-followed"] += 1
+                    if got != want or raw[0] is not c:
+                        self.out.fail(self.prefix + "/link-does-not-follow-its-target",
+                                      "%s.%s is linked to %s.%s: after %s.%s was set to %r the link gives %r (target is the sibling itself: %s)"
+                                      % (sib.name, dn, c.name, d, c.name, d, want, got, raw[0] is c))
+                        raise Stop()
 
     def op_cache(self, op, base):
         how = op["n"] % 6
